@@ -7,6 +7,7 @@ import (
 
 	"github.com/uber-go/tally/v4/m3/thriftudp"
 	"github.com/uber-go/tally/v4/thirdparty/github.com/apache/thrift/lib/go/thrift"
+	rt "github.com/uber-go/tally/v4/verifrt"
 )
 
 func payload(k, n int) []byte {
@@ -182,4 +183,78 @@ func c15Jobs(tier string) []*SeqJob {
 	}
 	jobs = append(jobs, c15ReporterJobs(tier)...)
 	return jobs
+}
+
+// c15Scenarios: Close is idempotent also when several goroutines call it at once (m3/thriftudp is instrumented
+// for this property, so the transport's atomic flag is a scheduling point), and a write racing with Close
+// either succeeds or returns an error.
+func c15Scenarios(tier string) []*Scenario {
+	var out []*Scenario
+	for _, ndest := range []int{1, 2} {
+		ndest := ndest
+		sc := &Scenario{Property: "C15", Name: fmt.Sprintf("T2-concurrent-close-%ddest", ndest)}
+		sc.Body = func(x *Run) {
+			var sinks []*fastSink
+			var addrs []string
+			for i := 0; i < ndest; i++ {
+				s := newFastSink()
+				sinks = append(sinks, s)
+				addrs = append(addrs, s.addr)
+				x.Cleanup = append(x.Cleanup, s.close)
+			}
+			var tr udpT
+			if ndest == 1 {
+				t, err := thriftudp.NewTUDPClientTransport(addrs[0], "")
+				if err != nil {
+					x.failf("dial-error", "%v", err)
+					return
+				}
+				tr = t
+			} else {
+				t, err := thriftudp.NewTMultiUDPClientTransport(addrs, "")
+				if err != nil {
+					x.failf("dial-error", "%v", err)
+					return
+				}
+				tr = t
+			}
+			var errs [2]error
+			var werr, ferr error
+			c1 := rt.GoNamed("closer1", func() { errs[0] = tr.Close() })
+			c2 := rt.GoNamed("closer2", func() { errs[1] = tr.Close() })
+			w := rt.GoNamed("writer", func() {
+				_, werr = tr.Write(payload(1, 5))
+				ferr = tr.Flush()
+			})
+			c1.Join()
+			c2.Join()
+			w.Join()
+			_, _ = werr, ferr // a write or flush that lost the race reports an error; neither may panic (judged by the engine)
+			for i, e := range errs {
+				if e != nil {
+					x.failf("concurrent-close-not-idempotent", "%d destination(s): concurrent Close call %d returned %v", ndest, i, e)
+				}
+			}
+			if e := tr.Close(); e != nil {
+				x.failf("close-not-idempotent", "a later Close returned %v", e)
+			}
+			if tr.IsOpen() {
+				x.failf("open-after-close", "IsOpen reports true after Close")
+			}
+			if _, e := tr.Write(payload(2, 5)); e == nil {
+				x.failf("write-after-close-accepted", "Write after Close returned nil")
+			}
+			// whatever arrived is one complete 5-byte datagram per destination at most
+			for d, s := range sinks {
+				for _, dg := range s.readAvailable(nil) {
+					if !bytes.Equal(dg, payload(1, 5)) {
+						x.failf("datagram-differs", "destination %d received %d bytes %x", d, len(dg), dg)
+					}
+				}
+			}
+		}
+		sc.Check = func(x *Run, o *rt.Outcome) (string, string, string) { return "", "", "ok" }
+		out = append(out, sc)
+	}
+	return out
 }
